@@ -51,6 +51,9 @@ type OpA struct {
 	Mode     int    `json:"mode,omitempty"`      // see expand()
 	Pick     int    `json:"pick,omitempty"`      // index into the agent's list of open downloads
 	Spread   bool   `json:"spread,omitempty"`    // items go to all agents in turn, starting with Ag
+	// per-step environment (env_test.go)
+	Starve int    `json:"starve,omitempty"` // s>=1: the process has at most s-1 free file descriptors while the step runs
+	RO     string `json:"ro,omitempty"`     // dl | agent | agents: that directory is read-only while the step runs
 }
 
 // name returns the file name of an open step.
@@ -76,6 +79,8 @@ type CaseA struct {
 	// scale: Extra further agents with derived ids (ExtraBase + k*0x9e3779b1, %x)
 	Extra     int    `json:"extra,omitempty"`
 	ExtraBase uint32 `json:"extra_base,omitempty"`
+	// environment the case runs in (env_test.go); the zero value is the harness's default
+	Env EnvA `json:"env"`
 }
 
 const decoyAgent = "c0ffee"
@@ -104,6 +109,11 @@ func genA(t *rapid.T) CaseA {
 	na := rapid.IntRange(1, 2).Draw(t, "nagents")
 	c.Agents = rapid.SliceOfNDistinct(rapid.SampledFrom(agentIDPool), na, na, rapid.ID[string]).Draw(t, "agents")
 	c.Decoys = rapid.Bool().Draw(t, "decoys")
+	// the ENVIRONMENT dimension: half of the cases keep the default environment
+	envOn := rapid.Bool().Draw(t, "env")
+	if envOn {
+		c.Env = genEnv(t, na)
+	}
 	nf := rapid.IntRange(1, 4).Draw(t, "nfids")
 	fids := rapid.SliceOfNDistinct(rapid.SampledFrom(fidPool), nf, nf, rapid.ID[uint32]).Draw(t, "fids")
 	nops := rapid.IntRange(1, 24).Draw(t, "nops")
@@ -184,6 +194,9 @@ func genA(t *rapid.T) CaseA {
 			op.Via = rapid.SampledFrom([]string{"input", "raw", "output"}).Draw(t, "logvia")
 			op.Text = rapid.StringMatching(`[a-z]{1,8}( [a-z]{1,6})?`).Draw(t, "text")
 		}
+		if envOn && op.K != "log" {
+			genStepCond(t, &op)
+		}
 		return op
 	}
 	// the SCALE dimension: about one case in a hundred carries bulk steps (threshold-adjacent counts)
@@ -194,7 +207,7 @@ func genA(t *rapid.T) CaseA {
 		scaleDen = 5
 	}
 	if rapid.IntRange(0, 99).Draw(t, "scale") == 99 && rapid.IntRange(0, scaleDen).Draw(t, "scale2") == 1 {
-		genScaleOps(t, &c, na, ord, func(ag int, ids []uint32) {
+		genScaleOps(t, &c, na, ord, envOn, func(ag int, ids []uint32) {
 			for _, f := range ids {
 				known := false
 				for _, g := range fids {
@@ -279,12 +292,21 @@ type xkey struct {
 	fid uint32
 }
 
-func checkA(c CaseA) *core.Violation {
+func checkA(c CaseA) (ret *core.Violation) {
 	if len(c.Agents) == 0 {
 		return nil
 	}
 	w := newWorld()
 	defer w.close()
+	// no verdict when the harness could not establish or undo an environment condition
+	noVerdict := false
+	defer func() {
+		if noVerdict {
+			noteEffect("no-verdict")
+			publishEffects()
+			ret = nil
+		}
+	}()
 	rec := tsx.NewRecorder()
 	var agents []*agent.Agent
 	ids := c.ids()
@@ -300,11 +322,17 @@ func checkA(c CaseA) *core.Violation {
 			}
 		}
 	}()
+	undoEnv, envOK := w.setupEnv(c, ids)
+	defer undoEnv()
+	if !envOK {
+		noVerdict = true
+		return nil
+	}
 	if c.Decoys {
 		for _, id := range ids {
-			mustMkdir(w.agentDir(id) + "/Downloads")
-			mustWrite(w.agentDir(id)+"/Download_x/keep", []byte("decoy"))
-			mustMkdir(w.agentDir(id) + "/Screenshots_x")
+			mustMkdir(w.phys(w.agentDir(id)) + "/Downloads")
+			mustWrite(w.phys(w.agentDir(id))+"/Download_x/keep", []byte("decoy"))
+			mustMkdir(w.phys(w.agentDir(id)) + "/Screenshots_x")
 		}
 		mustWrite(w.dlDir(decoyAgent)+"/victim", []byte("victim"))
 		mustMkdir(w.root + "/outside")
@@ -333,20 +361,52 @@ func checkA(c CaseA) *core.Violation {
 		}
 	}
 	req := uint32(1000)
-	dispatch := func(a *agent.Agent, cmd uint32, body []byte) {
+	rawDispatch := func(a *agent.Agent, cmd uint32, body []byte) {
 		req++
 		a.AddJobToQueue(agent.Job{RequestID: req, Command: cmd})
 		a.TaskDispatch(req, cmd, parser.NewParser(body), rec)
 		rec.Take()
 	}
+	// the step's own calls run under the step's environment condition (descriptor exhaustion, read-only folder)
+	var cond *stepCond
+	hostile := func(f func()) {
+		cond.run(f)
+		if cond != nil && cond.broken {
+			noVerdict = true
+		}
+	}
+	dispatch := func(a *agent.Agent, cmd uint32, body []byte) {
+		hostile(func() { rawDispatch(a, cmd, body) })
+	}
+	anyHostile := false
+	defer func() {
+		if anyHostile {
+			publishEffects()
+		}
+	}()
 	be32 := func(v uint32) []byte { return binary.BigEndian.AppendUint32(nil, v) }
-	env := &bulkEnv{w: w, agents: agents, ids: ids, open: open, order: order, expect: expect, bind: bind, unbind: unbind, dispatch: dispatch, bytesLeft: &bytesLeft}
+	env := &bulkEnv{w: w, agents: agents, ids: ids, open: open, order: order, expect: expect, bind: bind, unbind: unbind, dispatch: rawDispatch, bytesLeft: &bytesLeft, dlState: func(ai int) string {
+		if ai < len(c.Agents) {
+			return c.Env.dl(ai)
+		}
+		return ""
+	}}
 
 	for i, op := range c.Ops {
 		ai := ((op.Ag % len(agents)) + len(agents)) % len(agents)
 		a, id := agents[ai], ids[ai]
-		dl := w.dlDir(id)
+		if noVerdict {
+			return nil
+		}
+		ldl := w.dlDir(id) // the Download folder as the teamserver names it …
+		dl := w.phys(ldl)  // … and where it lies on disk (planted links followed)
+		pag := w.phys(w.agentDir(id))
 		key := xkey{ai, op.FID}
+		cond = w.condOf(op, id)
+		if cond.hostile() {
+			anyHostile = true
+		}
+		dlIsFile := ai < len(c.Agents) && c.Env.dl(ai) == "file"
 		desc := fmt.Sprintf("%s via %s agent %s fid %#x", op.K, op.Via, id, op.FID)
 		var lastWriter string
 
@@ -363,11 +423,15 @@ func checkA(c CaseA) *core.Violation {
 			if _, dup := open[key]; dup {
 				continue // precondition: file ids of simultaneous transfers differ
 			}
-			target, comps := dlTarget(dl, name)
-			contained := inside(dl, target)
+			// containment is a matter of the NAMES (the loot tree as the teamserver sees it); where the file then lies
+			// on disk follows the links planted in the tree
+			target, comps := dlTarget(ldl, name)
+			contained := inside(ldl, target)
+			target = w.phys(target)
 			noop := op.Via == "bof" && len(name) == 0 // CALLBACK_FILE needs a non-empty name
 			clash := false
-			altTarget, _ := dlTarget(dl, normaliseHostile(name))
+			altTarget, _ := dlTarget(ldl, normaliseHostile(name))
+			altTarget = w.phys(altTarget)
 			for k, x := range open {
 				if k.ag == ai && (x.target == target || loose && x.target == altTarget) {
 					clash = true
@@ -377,6 +441,8 @@ func checkA(c CaseA) *core.Violation {
 				continue // precondition: simultaneous transfers have distinct target names
 			}
 			must := contained && !noop && !loose && plainComponents(comps) && len(target) < 3000 && fsAllowsCreate(dl, comps)
+			// under a hostile condition the teamserver may refuse (what it does then is the model)
+			must = must && !cond.hostile() && !dlIsFile
 
 			switch op.Via {
 			case "fs":
@@ -390,10 +456,16 @@ func checkA(c CaseA) *core.Violation {
 				e.Int32(agent.CALLBACK_FILE).Bytes(blob)
 				dispatch(a, agent.BEACON_OUTPUT, e.B)
 			default:
-				a.DownloadAdd(int(op.FID), op.name(), int64(op.Size))
+				hostile(func() { a.DownloadAdd(int(op.FID), op.name(), int64(op.Size)) })
+			}
+			if noVerdict {
+				return nil
 			}
 			opened := a.DownloadGet(int(op.FID)) != nil
-			p := permit{writer: "DownloadAdd", region: dl, dirsExact: []string{w.agentDir(id), dl}, dirsUnder: []string{dl},
+			if cond.hostile() {
+				noteEffect(fmt.Sprintf("open under %s: accepted=%v", cond.name(), opened))
+			}
+			p := permit{writer: "DownloadAdd", region: dl, dirsExact: []string{pag, dl}, dirsUnder: []string{dl},
 				targetIn: contained, noWriteSig: "wrote-unexpected-file-in-download-dir"}
 			if contained && opened {
 				p.allowFile(target, mustEqual(nil))
@@ -411,7 +483,7 @@ func checkA(c CaseA) *core.Violation {
 					actual := w.lastLoose
 					if actual == "" {
 						if d := a.DownloadGet(int(op.FID)); d != nil {
-							actual = filepath.Clean(d.LocalFile)
+							actual = w.phys(w.abs(d.LocalFile))
 						}
 					}
 					target, contained = actual, inside(dl, actual)
@@ -451,7 +523,7 @@ func checkA(c CaseA) *core.Violation {
 				e.Int32(agent.CALLBACK_FILE_WRITE).Bytes(append(be32(op.FID), op.Data...))
 				dispatch(a, agent.BEACON_OUTPUT, e.B)
 			default:
-				a.DownloadWrite(int(op.FID), op.Data)
+				hostile(func() { a.DownloadWrite(int(op.FID), op.Data) })
 			}
 			if v := w.judge(i, desc, p); v != nil {
 				return v
@@ -470,7 +542,7 @@ func checkA(c CaseA) *core.Violation {
 				e.Int32(agent.CALLBACK_FILE_CLOSE).Bytes(be32(op.FID))
 				dispatch(a, agent.BEACON_OUTPUT, e.B)
 			default:
-				a.DownloadClose(int(op.FID))
+				hostile(func() { a.DownloadClose(int(op.FID)) })
 			}
 			if v := w.judge(i, desc, p); v != nil {
 				return v
@@ -481,6 +553,10 @@ func checkA(c CaseA) *core.Violation {
 		case "bopen", "bwrite", "bclose", "breopen", "bshot":
 			// a bulk step (scale_test.go): many primitive calls, ONE walk of the tree afterwards
 			v, wr := env.run(i, op, ai)
+			if wr == "no-verdict" {
+				noVerdict = true
+				return nil
+			}
 			if v != nil {
 				return v
 			}
@@ -521,8 +597,8 @@ func checkA(c CaseA) *core.Violation {
 			e := &demonref.Enc{}
 			e.Int32(1).Bytes(tinyBMP)
 			dispatch(a, agent.COMMAND_SCREENSHOT, e.B)
-			sd := w.shotDir(id)
-			p := permit{writer: "DemonSaveScreenshot", region: sd, dirsExact: []string{w.agentDir(id), sd}}
+			sd := w.phys(w.shotDir(id))
+			p := permit{writer: "DemonSaveScreenshot", region: sd, dirsExact: []string{pag, sd}}
 			found := false
 			if ents, err := os.ReadDir(sd); err == nil {
 				for _, en := range ents {
@@ -535,14 +611,20 @@ func checkA(c CaseA) *core.Violation {
 			if v := w.judge(i, desc, p); v != nil {
 				return v
 			}
-			if !found {
+			if cond.hostile() {
+				noteEffect(fmt.Sprintf("screenshot under %s: saved=%v", cond.name(), found))
+			}
+			if !found && !cond.hostile() {
 				return core.V("DemonSaveScreenshot|no-file", "step %d (%s): no Desktop_*.png in %s after a successful screenshot callback", i, desc, w.rel(sd))
 			}
 			lastWriter = "DemonSaveScreenshot"
 
 		case "log":
-			lf := w.logFile(id)
-			p := permit{region: w.agentDir(id), dirsExact: []string{w.agentDir(id)}}
+			if cond.hostile() {
+				continue // the log writers end the process (log.Fatal) when the log cannot be opened
+			}
+			lf := w.phys(w.logFile(id))
+			p := permit{region: pag, dirsExact: []string{pag}}
 			switch op.Via {
 			case "input":
 				p.writer = "AddAgentInput"
@@ -729,20 +811,22 @@ func classifyA(c CaseA) core.Class {
 	}
 	scLabels, scFP := sc.labels()
 	cl.Labels = append(cl.Labels, scLabels...)
+	cl.Labels = append(cl.Labels, envLabels(c)...)
 	cl.NonTrivial = anyName.dotdot || anyName.mixed || anyName.prefixSib || interleaved || writeAfterStop || disguised || len(scLabels) > 0
-	cl.Fingerprint = fmt.Sprintf("ag=%d|dd=%v|mix=%v|sib=%v|open=%d|il=%v|stray=%v|xfer=%v|was=%v", len(c.Agents), anyName.dotdot, anyName.mixed, anyName.prefixSib, maxOpen, interleaved, stray, xferOnOpen, writeAfterStop) + fmt.Sprintf("|dis=%v", disguised) + scFP
+	cl.Fingerprint = fmt.Sprintf("ag=%d|dd=%v|mix=%v|sib=%v|open=%d|il=%v|stray=%v|xfer=%v|was=%v", len(c.Agents), anyName.dotdot, anyName.mixed, anyName.prefixSib, maxOpen, interleaved, stray, xferOnOpen, writeAfterStop) + fmt.Sprintf("|dis=%v", disguised) + scFP + envFP(c)
 	return cl
 }
 
 func TestC07a(t *testing.T) {
 	core.Run(t, core.Spec[CaseA]{
 		Property: "C07", Sub: "a",
-		Rule: "1-2 Demon agents, 1-4 file ids, 1-24 steps of open/write/close (also for unknown and closed ids)/screenshot/console-log/transfer-control acknowledgement (COMMAND_TRANSFER list, stop, resume, remove and the remove follow-up package, Found true/false, for open, unknown and closed file ids of either agent), each delivered via the real TaskDispatch as COMMAND_FS download callbacks, as BEACON_OUTPUT CALLBACK_FILE* callbacks (reference-encoded as the Demon does) or by calling DownloadAdd/Write/Close; names from a path grammar (.., ., empty, Download/Downloads/Download_x/Down, Screenshots*, own and foreign agent ids, 300-char, NUL, C:, UNC; separators / \\ // \\\\ /\\ \\/, leading/trailing); half of the names are then DECORATED: removable / normalisable characters at generated positions inside components (NUL and NUL runs as in '.\\x00.' '..\\x00' '\\x00..', U+200B, U+FEFF, soft hyphen, tab, space, trailing dot / space, %2e %2f %5c escapes, overlong and invalid UTF-8 bytes; names that are not UTF-8 travel as bytes). For a decorated name any ONE new file inside the agent's Download folder is accepted as its target (the oracle is the tree walk, not an interpretation of the name). Oracle after every step: recursive listing (with contents) of a root four levels above the loot root; every created/changed file is the step's own target inside agents/<id>/Download (resp. Screenshots/Desktop_*.png, Console_<id>.log), every created directory is agents/<id>, its Download/Screenshots folder or inside the Download folder; each download file equals the concatenation of the chunks of the transfer that created it; stray writes/closes change nothing; a transfer-control acknowledgement changes nothing on disk and does not end the transfer (chunks that follow a stop/resume/remove acknowledgement are appended as before); plain names must be accepted. Non-trivial: a name with .., mixed/doubled separators or a prefix-sharing sibling, or a write while >=2 transfers of the agent are open, or a chunk after a stop/remove acknowledgement, or a decorated component that a normalisation would turn into '..'; distinct = (#agents, dotdot, sepmix, sibling, max open, interleaved, stray, ack on open transfer, write after stop, disguised dot-dot) SCALE (about 1 case in 100; thorough tier 1 in 200): BULK steps stand between the ordinary ones (ordinary steps come before, between and after them and also address ids a bulk step opened); every bulk step is a loop of the same real calls (TaskDispatch COMMAND_FS / BEACON_OUTPUT callbacks or the Download* API, one or all three in turn) whose counts come from the threshold-adjacent pool {63,64,65,127,128,129,255,256,257,511,512,513,999,1000,1001,1023,1024,1025 | 2047,2048,2049,4095,4096,4097 | 8191,8192,8193}: bopen = N downloads opened for one agent (N up to 1025 in the quick tier, 2049 in the thorough tier; several bopen steps per case, at most ~2100 opens, plus 'one to three more' after a threshold-adjacent count; file ids FID+k*stride over the whole 32-bit range with strides 1, 2, 0x10000, a large odd number and -1; names distinct per id, in 0-3 nested folders, joined by / or \\ or both, one in eight optionally decorated with a terminating NUL / U+200B / trailing dot / trailing space; optionally with the step index in the name so that a re-opened id gets a fresh file) and, interleaved with the opens, a chunk after every open for the download just opened / for the next download in a round robin over everything the agent has open / for the agent's OLDEST open download; bwrite = 1-3 rounds of one chunk for every open download (oldest first or newest first), or a burst of N chunks (N up to 4097 quick, 8193 thorough) for ONE download picked by index, or N chunks each for the oldest, the middle and the newest in turn (N up to 2049), optionally a chunk for an id that is not open after every 16th chunk; chunk lengths 0-24 and, in a share of the steps, 0, 1, 65535, 65536 and 1 MiB (every chunk of a short burst or every k-th of a long one; a case sends at most 4 MiB in the quick tier, 16 MiB in the thorough tier - beyond that the chunks fall back to the short length); bclose = closes for everything open (oldest first, newest first, every second, the oldest N, all but the oldest N; optionally closes for ids that are not open in between); breopen = one id (an open one picked by index, or a new one) closed and opened again N times (N up to 1025) with a chunk after every open, into the same file name or a fresh one per generation; bshot = N screenshot callbacks (N up to 129 quick - a callback costs ~0.5 ms - 1025 thorough); in one scale case out of four the case has 63-513 (thorough: -1025) FURTHER agents with derived ids and bulk steps may SPREAD their items over all agents in turn. The number of downloads the model lets be open at once is cut at RLIMIT_NOFILE-512 of the test process (TestMain raises the soft limit to the hard one; 20000 here, so nothing is cut; opens beyond it are skipped). Oracle at scale = the same model and permit judge: the tree is walked ONCE after the whole bulk step (checkpoint right after the count is reached) - every created/changed file is a target of this step inside agents/<id>/Download and holds exactly the concatenation of the chunks sent for its id since it was opened, every new directory is agents/<id>, its Download/Screenshots folder or inside Download, nothing else changed; plain names must be accepted; for a decorated bulk name the file the transfer reports is taken as its target if it lies inside the Download folder (the walk verifies it) - and after every ordinary step as before, so every finished and every still open file is re-compared at each later step. Labels scale:<what>:<bucket> (buckets 64-129 = 63..254, 255-513 = 255..998, 999-1025 = 999..2046, 2047-4097, 8191+) for downloads-open-at-once (per agent), chunks-per-download, reopens-of-one-id, screenshots, agents-writing-loot, chunk-for-early-download-after-more-opens (a download that already had a chunk receives another one after >= 63 further opens of its agent; bucket = downloads open at that moment); the driver keeps the 60 most frequent labels only, therefore the COMPLETE scale histogram of each shard (these classes plus scale:cases, scale:ordinary-step-while-open:<bucket>, scale:chunk-size:<0|1|65535|65536|1048576>, scale:file-size:<class>, scale:chunks-for-unknown-id-in-bulk) is published as extra 'c07a.scale_classes.<shard>' of the evidence; a scale case is non-trivial and adds (open bucket, chunk bucket, early-chunk) to the distinct key",
+		Rule: "1-2 Demon agents, 1-4 file ids, 1-24 steps of open/write/close (also for unknown and closed ids)/screenshot/console-log/transfer-control acknowledgement (COMMAND_TRANSFER list, stop, resume, remove and the remove follow-up package, Found true/false, for open, unknown and closed file ids of either agent), each delivered via the real TaskDispatch as COMMAND_FS download callbacks, as BEACON_OUTPUT CALLBACK_FILE* callbacks (reference-encoded as the Demon does) or by calling DownloadAdd/Write/Close; names from a path grammar (.., ., empty, Download/Downloads/Download_x/Down, Screenshots*, own and foreign agent ids, 300-char, NUL, C:, UNC; separators / \\ // \\\\ /\\ \\/, leading/trailing); half of the names are then DECORATED: removable / normalisable characters at generated positions inside components (NUL and NUL runs as in '.\\x00.' '..\\x00' '\\x00..', U+200B, U+FEFF, soft hyphen, tab, space, trailing dot / space, %2e %2f %5c escapes, overlong and invalid UTF-8 bytes; names that are not UTF-8 travel as bytes). For a decorated name any ONE new file inside the agent's Download folder is accepted as its target (the oracle is the tree walk, not an interpretation of the name). Oracle after every step: recursive listing (with contents) of a root four levels above the loot root; every created/changed file is the step's own target inside agents/<id>/Download (resp. Screenshots/Desktop_*.png, Console_<id>.log), every created directory is agents/<id>, its Download/Screenshots folder or inside the Download folder; each download file equals the concatenation of the chunks of the transfer that created it; stray writes/closes change nothing; a transfer-control acknowledgement changes nothing on disk and does not end the transfer (chunks that follow a stop/resume/remove acknowledgement are appended as before); plain names must be accepted. Non-trivial: a name with .., mixed/doubled separators or a prefix-sharing sibling, or a write while >=2 transfers of the agent are open, or a chunk after a stop/remove acknowledgement, or a decorated component that a normalisation would turn into '..'; distinct = (#agents, dotdot, sepmix, sibling, max open, interleaved, stray, ack on open transfer, write after stop, disguised dot-dot) SCALE (about 1 case in 100; thorough tier 1 in 200): BULK steps stand between the ordinary ones (ordinary steps come before, between and after them and also address ids a bulk step opened); every bulk step is a loop of the same real calls (TaskDispatch COMMAND_FS / BEACON_OUTPUT callbacks or the Download* API, one or all three in turn) whose counts come from the threshold-adjacent pool {63,64,65,127,128,129,255,256,257,511,512,513,999,1000,1001,1023,1024,1025 | 2047,2048,2049,4095,4096,4097 | 8191,8192,8193}: bopen = N downloads opened for one agent (N up to 1025 in the quick tier, 2049 in the thorough tier; several bopen steps per case, at most ~2100 opens, plus 'one to three more' after a threshold-adjacent count; file ids FID+k*stride over the whole 32-bit range with strides 1, 2, 0x10000, a large odd number and -1; names distinct per id, in 0-3 nested folders, joined by / or \\ or both, one in eight optionally decorated with a terminating NUL / U+200B / trailing dot / trailing space; optionally with the step index in the name so that a re-opened id gets a fresh file) and, interleaved with the opens, a chunk after every open for the download just opened / for the next download in a round robin over everything the agent has open / for the agent's OLDEST open download; bwrite = 1-3 rounds of one chunk for every open download (oldest first or newest first), or a burst of N chunks (N up to 4097 quick, 8193 thorough) for ONE download picked by index, or N chunks each for the oldest, the middle and the newest in turn (N up to 2049), optionally a chunk for an id that is not open after every 16th chunk; chunk lengths 0-24 and, in a share of the steps, 0, 1, 65535, 65536 and 1 MiB (every chunk of a short burst or every k-th of a long one; a case sends at most 4 MiB in the quick tier, 16 MiB in the thorough tier - beyond that the chunks fall back to the short length); bclose = closes for everything open (oldest first, newest first, every second, the oldest N, all but the oldest N; optionally closes for ids that are not open in between); breopen = one id (an open one picked by index, or a new one) closed and opened again N times (N up to 1025) with a chunk after every open, into the same file name or a fresh one per generation; bshot = N screenshot callbacks (N up to 129 quick - a callback costs ~0.5 ms - 1025 thorough); in one scale case out of four the case has 63-513 (thorough: -1025) FURTHER agents with derived ids and bulk steps may SPREAD their items over all agents in turn. The number of downloads the model lets be open at once is cut at RLIMIT_NOFILE-512 of the test process (TestMain raises the soft limit to the hard one; 20000 here, so nothing is cut; opens beyond it are skipped). Oracle at scale = the same model and permit judge: the tree is walked ONCE after the whole bulk step (checkpoint right after the count is reached) - every created/changed file is a target of this step inside agents/<id>/Download and holds exactly the concatenation of the chunks sent for its id since it was opened, every new directory is agents/<id>, its Download/Screenshots folder or inside Download, nothing else changed; plain names must be accepted; for a decorated bulk name the file the transfer reports is taken as its target if it lies inside the Download folder (the walk verifies it) - and after every ordinary step as before, so every finished and every still open file is re-compared at each later step. Labels scale:<what>:<bucket> (buckets 64-129 = 63..254, 255-513 = 255..998, 999-1025 = 999..2046, 2047-4097, 8191+) for downloads-open-at-once (per agent), chunks-per-download, reopens-of-one-id, screenshots, agents-writing-loot, chunk-for-early-download-after-more-opens (a download that already had a chunk receives another one after >= 63 further opens of its agent; bucket = downloads open at that moment); the driver keeps the 60 most frequent labels only, therefore the COMPLETE scale histogram of each shard (these classes plus scale:cases, scale:ordinary-step-while-open:<bucket>, scale:chunk-size:<0|1|65535|65536|1048576>, scale:file-size:<class>, scale:chunks-for-unknown-id-in-bulk) is published as extra 'c07a.scale_classes.<shard>' of the evidence; a scale case is non-trivial and adds (open bucket, chunk bucket, early-chunk) to the distinct key. ENVIRONMENT (half of the cases keep the harness default: absolute loot path, empty loot tree, generous descriptor limit, umask 022, the test's working directory; the other half draws in combination): per listed agent the folder agents/<id> {absent, already there, a SYMLINK to a directory outside the loot tree} and its Download folder {absent, already there, a symlink to a directory outside the loot tree, REPLACED BY A REGULAR FILE}; 0-3 files / directories PLANTED below the Download folder at names downloads use (f, a, b, report.txt, x1, g, a/b, b/f, k0, k1/k2: an existing target file, a directory where the file should be, a file where a folder is needed); umask {unchanged, 077, 027, 777}; working directory {unchanged, elsewhere, the loot path's parent with the loot path RELATIVE ('loot/agents', './loot/agents') as cmd/server.go configures it ('data/loot/<time>/agents')}; and per step (about one step in five of such a case, also bulk steps; not console-log steps): the process is OUT OF FILE DESCRIPTORS while the step's calls run (soft RLIMIT_NOFILE lowered to 64, every free number below taken by a /dev/null handle, then 0, 1 or 2 released; limit and handles restored before the tree is walked; a bulk step runs as a whole under the condition, so with k descriptors left its first k opens may succeed), or the agents root / agents/<id> / its Download folder is READ-ONLY (mode 0555, and because the harness runs as root CAP_DAC_OVERRIDE and CAP_DAC_READ_SEARCH are dropped on the locked thread for the step; restored afterwards). Model = what HEAD does, verified by experiment: containment is decided on the NAMES (the loot tree as the teamserver names it) and the file then lies where the planted links lead (a folder behind a link the administrator planted IS the agent's folder; the walk does not follow links, the link targets lie inside the walked root); a step under a hostile condition, and any open of an agent whose Download folder is a file, MAY be refused - the demands 'a plain name must be accepted' and 'a screenshot file must appear' are dropped for it, nothing else: a refused open creates no file (folders inside the Download folder may appear), chunks for its id are chunks for an unknown id and go nowhere, whatever is created lies inside the agent's folders with exactly the bytes sent, and every earlier file - finished or still open - keeps exactly its chunks, also when its next chunk arrives after the hostile step. Console-log steps are skipped under a per-step condition (AddAgentInput / AddAgentRaw / DemonAddOutput end the process with log.Fatal when the log cannot be opened; process exit is not this property). NO VERDICT (case counted, nothing judged) when the harness cannot establish or undo a condition (setrlimit / capset / chmod / chdir / symlink fails, or umask 7xx without root). Labels env:default, env:download-dir=<pre|link|file>, env:agent-dir=<pre|link>, env:planted=<file|dir>, env:umask=<077|027|777>, env:cwd=<elsewhere|loot-parent>, env:loot-path=relative, env:fd-exhausted-step, env:read-only-step, env:chunk-for-earlier-transfer-after-hostile-open (a transfer that had a chunk when an open ran under a hostile condition receives a further chunk); the finer classes (step kind x descriptors left / which folder) and what the conditions did (opens accepted / refused, screenshots saved / not saved under each condition, no-verdict count) are the extras 'c07a.env_classes.<shard>' and 'c07a.env_effects.<shard>' of the evidence; a case with a hostile step adds one bit to the distinct key",
 		Gen:  genA, Check: checkA, Classify: classifyA,
 		Assumptions: []string{
 			"file ids and target files of simultaneously open transfers of one agent differ (steps violating this are skipped)",
 			"a name contains at most 7 '..' components so that nothing can leave the observed tree",
 			"FS-path names lose leading/trailing NULs in the UTF-16 reader by contract; screenshot content is not compared (only its location)",
+			"environment: what lies behind a symlink the harness planted for agents/<id> or its Download folder counts as that agent's folder; under a per-step hostile condition (descriptor exhaustion, read-only folder) and for an agent whose Download folder is a file the teamserver may refuse the step; console-log steps are not performed under such a condition (log.Fatal); a case whose condition cannot be established or undone gives no verdict",
 			"scale: at most RLIMIT_NOFILE-512 downloads are open at once in one case (the teamserver keeps one handle per open download); bulk opens beyond that are skipped",
 		},
 	})
